@@ -119,6 +119,10 @@ func Reader(sym string) gozxing.Reader {
 		return oned.NewCode39Reader()
 	case "C39X":
 		return oned.NewCode39ReaderWithFlags(false, true)
+	case "C39K":
+		return oned.NewCode39ReaderWithCheckDigitFlag(true)
+	case "MULTI":
+		return oned.NewMultiFormatUPCEANReader(nil)
 	case "ITF":
 		return oned.NewITFReader()
 	case "CBAR":
